@@ -479,6 +479,7 @@ Fixpoint flat_count (path : list bytes) (value : json) : res nat :=
     | None => Err ENotFound
     | Some (JObj o) => flat_count rest (JObj o)
     | Some (JArr items) => ns <- map_res (flat_count rest) items ;; Ok (fold_left Nat.add ns 0%nat)
+    | Some JNull => Ok 0%nat           (* a null parent is skipped (it has no resolver context either) *)
     | Some _ => Err EExpected
     end
   end.
@@ -508,6 +509,7 @@ Fixpoint flat_update (elem : bytes) (path : list bytes) (value : json) (vals : l
         p <- flat_update elem rest (JObj o) vals ;; Ok (JObj (obj_set seg (fst p) vo), snd p)
       | Some (JArr items) =>
         p <- map_state (flat_update elem rest) items vals ;; Ok (JObj (obj_set seg (JArr (fst p)) vo), snd p)
+      | Some JNull => Ok (value, vals)
       | Some _ => Err EExpected
       end
     | _ => Err ENotFound
